@@ -412,6 +412,11 @@ impl PeerHandler {
     }
 
     async fn handle_unchoke(&mut self) -> Result<bool, Box<dyn std::error::Error>> {
+        // Repeated Unchoke doesn't change anything
+        if !self.peer_state.choked {
+            return Ok(true);
+        }
+
         self.peer_state.choked = false;
 
         if !self.msg_buff.is_empty() {
